@@ -78,7 +78,7 @@ def same_stride_graph(rng):
     return {"type": "NIRGraph", "nodes": nodes, "edges": edges, "meta": None}, None, ["conv", "out"]
 
 
-def run(ctx):
+def _run_main(ctx):
     from core import run_graph_ops
     rng = ctx.rng
     cases, obs, reqs = [], [], []
@@ -162,3 +162,11 @@ def run(ctx):
                 ctx.violate(case, "an operation of the history raised on a consistent graph",
                             {**sig, "what": "raised", "err": err_name(e)}, observed=f"{type(e).__name__}: {e}")
     ctx.compare("histories", cases, obs, reqs)
+
+
+def run(ctx):
+    _run_main(ctx)
+    # history independence: the same call on a live graph object with a history of edits / calls and on a twin rebuilt
+    # from its public state (harness/history.py)
+    import history
+    history.run(ctx, ["infer", "file_rt"], {"infer": "infer_types on a graph object with a history", "file_rt": "read(write(g)) of a graph object with a history"})
